@@ -101,7 +101,7 @@ def _append_table_to_xlsxwriter_worksheet(table: Table, ws: Worksheet, sep_lines
     ws.write(row_start + 1, 0, _table_destinations(table), formats.destinations)
     if table.metadata.transposed:
         row = row_start + 1
-        for col in table:
+        for i, col in enumerate(table):
             row += 1
             ws.write(row, 0, col.name, formats.column_names)
             ws.write(row, 1, col.unit, formats.units_transposed)
@@ -111,7 +111,9 @@ def _append_table_to_xlsxwriter_worksheet(table: Table, ws: Worksheet, sep_lines
                 ft = formats.values_transposed
             ws.write_row(
                 row, 2,
-                _represent_col_elements(col.values, col.unit, na_rep, convert_datetime=True),
+                _represent_col_elements(
+                    col.values, col.unit, na_rep, convert_datetime=True, first_column=(i == 0)
+                ),
                 ft
             )
         final_row = row + 1
@@ -126,7 +128,9 @@ def _append_table_to_xlsxwriter_worksheet(table: Table, ws: Worksheet, sep_lines
                 ft = formats.values
             ws.write_column(
                 row_start + 4, i,
-                _represent_col_elements(col.values, col.unit, na_rep, convert_datetime=True),
+                _represent_col_elements(
+                    col.values, col.unit, na_rep, convert_datetime=True, first_column=(i == 0)
+                ),
                 ft
             )
         final_row = row_start + 4 + table.df.shape[0]
